@@ -2,31 +2,19 @@
    (Handles.v speaks about the flattened list of all handles; the NetQASM layer needs the per-node view:
    liveness of the handles in qubitList and the held-qubit count for teardown.) *)
 From Coq Require Import List Bool Arith Lia.
-From SQ Require Import Base.ListUtil Stab.Tableau Net.Model Net.Refusal Net.Handles.
+From SQ Require Import Base.ListUtil Stab.Tableau Net.Model Net.Refusal Net.Handles Net.Inv Net.InvNew Net.InvPull Net.Population.
 Import ListNotations.
 
-Definition held (s : net) (j : nat) : nat := length (virt (nth_node s j)).
 Lemma held_hn s j : held s j = length (hn (nth_node s j)).
 Proof. unfold held, hn. rewrite map_length. reflexivity. Qed.
 
-Lemma nth_node_set s i nd j :
-  nth_node (set_node s i nd) j = if Nat.eqb i j && Nat.ltb i (length (nodes s)) then nd else nth_node s j.
-Proof.
-  unfold nth_node, set_node; simpl.
-  destruct (Nat.eqb_spec i j) as [->|N]; simpl.
-  - destruct (Nat.ltb_spec j (length (nodes s))).
-    + apply nth_upd_eq; auto.
-    + rewrite upd_overflow; auto.
-  - apply nth_upd_neq; auto.
-Qed.
-
 Lemma length_set_node s i nd : length (nodes (set_node s i nd)) = length (nodes s).
-Proof. unfold set_node; simpl. apply upd_length. Qed.
+Proof. apply set_node_length. Qed.
 
 Lemma hn_set_same s i nd j : hn nd = hn (nth_node s i) -> hn (nth_node (set_node s i nd) j) = hn (nth_node s j).
 Proof.
-  intro H. rewrite nth_node_set. destruct (Nat.eqb_spec i j) as [->|N]; simpl; auto.
-  destruct (Nat.ltb j (length (nodes s))); auto.
+  intro H. rewrite nth_node_set. destruct (Nat.eqb_spec j i) as [->|N]; simpl; auto.
+  destruct (Nat.ltb i (length (nodes s))); auto.
 Qed.
 
 Definition nkeeps (f : net -> net) : Prop :=
@@ -71,10 +59,7 @@ Proof.
   assert (E1 : hn (nth_node s1 j) = hn (nth_node s j)) by (apply hn_set_same; reflexivity).
   assert (E2 : hn (nth_node (set_node s1 li ln1) j) = hn (nth_node s1 j)) by (apply hn_set_same; reflexivity).
   split.
-  - rewrite <- E1, <- E2. unfold nth_node at 1. cbn [nodes].
-    match goal with |- hn (nth j (map ?f ?l) _) = _ =>
-      change (empty_node 0 0) with (f (empty_node 0 0)) at 1; rewrite (map_nth f l (empty_node 0 0) j) end.
-    unfold hn; simpl. rewrite map_map. apply map_ext.
+  - rewrite <- E1, <- E2. rewrite nth_node_map_virt. unfold hn; cbn [virt with_virt]. rewrite map_map. apply map_ext.
     intros q. destruct (Nat.eqb _ _); auto. destruct (find_sq _ _); auto.
   - cbn [nodes]. rewrite map_length. unfold s1. rewrite !length_set_node. reflexivity.
 Qed.
@@ -88,7 +73,7 @@ Lemma step_quiet s o j : quiet_op o = true ->
 Proof.
   assert (HK : forall f, nkeeps f -> hn (nth_node (f s) j) = hn (nth_node s j) /\ length (nodes (f s)) = length (nodes s)).
   { intros f Hf. apply Hf. }
-  destruct o; simpl; try discriminate; intros _.
+  destruct o; simpl; try discriminate; try (destruct inplace; [|discriminate]); intros _.
   - unfold op_gate1. destruct (find_handle s h) as [[vi q]|]; [|simpl; auto].
     destruct (locate s q) as [[x r]|]; [|simpl; auto].
     destruct (gate1_of g); simpl; auto. apply (HK _ (update_reg_at_nkeeps _ _)).
@@ -118,21 +103,17 @@ Proof.
            assert (HC : nkeeps (fun s0 => apply_gate2_at (fst (merge_from s0 vi (v_simNode q1) (v_simNum q1) k2)) vi k2 g b b')).
            { apply (nkeeps_compose _ _ HM (apply_gate2_at_nkeeps vi k2 g b b')). }
            specialize (HK _ HC). cbv beta in HK. rewrite EM in HK. exact HK.
-        -- unfold add_register_force.
-           set (nd1 := mkNode _ _ _ _ _ _ _). set (r := mkReg _ _ _ _).
-           assert (H0 : nkeeps (fun s0 => set_node s0 vi (mkNode (virt (nth_node s0 vi)) (sims (nth_node s0 vi))
-                      (regs (nth_node s0 vi) ++ [mkReg (nextReg (nth_node s0 vi)) 10 0 []]) (S (numRegs (nth_node s0 vi)))
-                      (S (nextReg (nth_node s0 vi))) (maxQ (nth_node s0 vi)) (maxR (nth_node s0 vi))))).
-           { intros s0 j0. split; [apply hn_set_same; reflexivity|apply length_set_node]. }
-           destruct (merge_from (set_node s vi nd1) _ _ _ _) as [s1 newC] eqn:EM1.
-           destruct (merge_from s1 _ _ _ _) as [s2 newT] eqn:EM2.
+        -- destruct (add_register_force (nth_node s vi)) as [nd1 r] eqn:EA.
+           assert (H0 : hn (nth_node (set_node s vi nd1) j) = hn (nth_node s j) /\ length (nodes (set_node s vi nd1)) = length (nodes s)).
+           { split; [apply hn_set_same|apply length_set_node]. unfold add_register_force in EA. inversion EA. reflexivity. }
+           pose proof (merge_from_nkeeps vi (v_simNode q1) (v_simNum q1) (r_num r) (set_node s vi nd1) j) as HM1. cbv beta in HM1.
+           destruct (merge_from (set_node s vi nd1) _ _ _ _) as [s1 newC]. cbn [fst] in HM1.
+           pose proof (merge_from_nkeeps vi (v_simNode q2) (v_simNum q2) (r_num r) s1 j) as HM2. cbv beta in HM2.
+           destruct (merge_from s1 _ _ _ _) as [s2 newT]. cbn [fst] in HM2.
            destruct (pos_of _ _ _) as [a b]. destruct (pos_of _ _ _) as [a' b']. cbn [fst].
-           pose proof (merge_from_nkeeps vi (v_simNode q1) (v_simNum q1) (r_num r)) as HM1.
-           pose proof (merge_from_nkeeps vi (v_simNode q2) (v_simNum q2) (r_num r)) as HM2.
-           pose proof (nkeeps_compose _ _ (nkeeps_compose _ _ (nkeeps_compose _ _ H0 HM1) HM2) (apply_gate2_at_nkeeps vi (r_num r) g b b')) as HC.
-           specialize (HK _ HC). cbv beta in HK. fold nd1 in HK. rewrite EM1 in HK. cbn [fst] in HK. rewrite EM2 in HK. exact HK.
-  - destruct inplace; try discriminate.
-    unfold op_meas. destruct (find_handle s h) as [[vi q]|]; [|simpl; auto].
+           destruct (apply_gate2_at_nkeeps vi (r_num r) g b b' s2 j) as [G1 G2].
+           destruct H0 as [H0 H0']. destruct HM1 as [M1 M1']. destruct HM2 as [M2 M2']. split; congruence.
+  - unfold op_meas. destruct (find_handle s h) as [[vi q]|]; [|simpl; auto].
     destruct (locate s q) as [[x r]|]; [|simpl; auto].
     destruct (measure _ _ _ _ _) as [[o n1] t1]. cbn [fst].
     apply (HK _ (update_reg_at_nkeeps _ _)).
@@ -141,19 +122,19 @@ Qed.
 (* a refused or ignored operation changes nothing at all *)
 Lemma step_not_ok_same s o : (forall v, snd (step s o) <> Ok v) -> quiet_op o = false -> fst (step s o) = s.
 Proof.
-  destruct o; simpl; try discriminate; intros H _.
+  destruct o; simpl; try discriminate; try (destruct inplace; [discriminate|]); intros H _.
   - destruct (Nat.ltb _ _); auto. unfold op_new in *.
     destruct (Nat.leb _ _); auto. destruct (add_register _) as [[nd1 r]|]; auto. exfalso. eapply H. reflexivity.
   - unfold op_send in *. destruct (find_handle s h) as [[vi q]|]; auto.
     destruct (Nat.leb _ _); auto. destruct (Nat.leb _ _); auto. exfalso. eapply H. reflexivity.
-  - destruct inplace; try discriminate. unfold op_meas in *.
+  - unfold op_meas in *.
     destruct (find_handle s h) as [[vi q]|]; auto. destruct (locate s q) as [[x r]|]; auto.
     destruct (measure _ _ _ _ _) as [[o n1] t1]. exfalso. eapply H. reflexivity.
 Qed.
 
 (* creation: the new handle next_hid is appended at node i, nothing else moves *)
 Lemma step_new_hn s i v j : snd (step s (ONew i)) = Ok v ->
-  hn (nth_node (fst (step s (ONew i))) j) = (if Nat.eqb i j then hn (nth_node s i) ++ [next_hid s] else hn (nth_node s j))
+  hn (nth_node (fst (step s (ONew i))) j) = (if Nat.eqb j i then hn (nth_node s i) ++ [next_hid s] else hn (nth_node s j))
   /\ length (nodes (fst (step s (ONew i)))) = length (nodes s) /\ i < length (nodes s).
 Proof.
   simpl. destruct (Nat.ltb_spec i (length (nodes s))) as [Hi|Hi]; [|discriminate].
@@ -161,15 +142,15 @@ Proof.
   unfold add_register. destruct (Nat.leb _ _); [discriminate|]. cbn [fst snd]. intros _.
   split; [|split; [cbn [nodes]; apply upd_length|exact Hi]].
   unfold nth_node at 1. cbn [nodes].
-  destruct (Nat.eqb_spec i j) as [->|N].
-  - rewrite nth_upd_eq by auto. unfold hn; simpl. rewrite map_app. reflexivity.
+  destruct (Nat.eqb_spec j i) as [E|N].
+  - subst j. rewrite nth_upd_eq by auto. unfold hn; simpl. rewrite map_app. reflexivity.
   - rewrite nth_upd_neq by auto. reflexivity.
 Qed.
 
 (* destructive measurement: the handle leaves its holder, nothing else moves *)
 Lemma step_meas_hn s h c v vi q j : snd (step s (OMeas h false c)) = Ok v -> find_handle s h = Some (vi, q) ->
   hn (nth_node (fst (step s (OMeas h false c))) j) =
-    (if Nat.eqb vi j then filter (fun x => negb (Nat.eqb x h)) (hn (nth_node s vi)) else hn (nth_node s j))
+    (if Nat.eqb j vi then filter (fun x => negb (Nat.eqb x h)) (hn (nth_node s vi)) else hn (nth_node s j))
   /\ length (nodes (fst (step s (OMeas h false c)))) = length (nodes s).
 Proof.
   simpl. unfold op_meas. intros Hok F. rewrite F in *.
@@ -181,10 +162,10 @@ Proof.
   assert (Hvi : vi < length (nodes s)) by (apply find_handle_some in F; tauto).
   split.
   - rewrite nth_node_set. destruct (HC s vi) as [A B]. cbv beta in A, B. fold s2 in A, B.
-    destruct (Nat.eqb_spec vi j) as [->|N]; simpl.
-    + rewrite B. destruct (Nat.ltb_spec j (length (nodes s))); [|lia].
-      rewrite <- A. unfold hn, remove_vq; simpl. generalize (virt (nth_node s2 j)) as l.
-      induction l as [|a t IH]; simpl; auto. destruct (Nat.eqb (v_hid a) h); simpl; congruence.
+    destruct (Nat.eqb_spec j vi) as [E|N]; simpl.
+    + subst j. rewrite B. destruct (Nat.ltb_spec vi (length (nodes s))); [|lia].
+      rewrite <- A. unfold hn, remove_vq; simpl. generalize (virt (nth_node s2 vi)) as l.
+      induction l as [|a0 t0 IH]; simpl; auto. destruct (Nat.eqb (v_hid a0) h); simpl; congruence.
     + destruct (HC s j) as [A' _]. exact A'.
   - rewrite length_set_node. destruct (HC s 0) as [_ B]. exact B.
 Qed.
